@@ -126,6 +126,7 @@ type Machine struct {
 	canonCache   map[int]*smt.Term
 	auxVars      []*smt.Term
 	floorCache   map[string]*smt.Term
+	timeStrs     []*smt.Term // instants behind formatted-time tokens
 	multiples    []multipleOf
 	conc         *concState
 	schedVector  []uint64
